@@ -454,9 +454,42 @@ def loops_to_comprehensions(repo: Repo) -> int:
     return count
 
 
+def _safe(repo: Repo, name: str, fn) -> int:
+    """Run a post-indexing pass; on any failure put the function bodies back as they were."""
+    import pickle
+
+    tops = [f for f in repo.funcs.values() if f.parent is None]
+    snap = pickle.dumps([f.node.body for f in tops], protocol=pickle.HIGHEST_PROTOCOL)
+    try:
+        n = fn(repo)
+        for f in tops:
+            ast.fix_missing_locations(f.node)
+        for m in repo.modules.values():
+            compile(m.tree, "<normalised>", "exec")
+        return n
+    except Exception as e:  # noqa: BLE001
+        for f, body in zip(tops, pickle.loads(snap)):
+            f.node.body = body
+        repo.normalisation.setdefault("failed_passes", []).append(f"{name}: {type(e).__name__}: {e}")
+        return 0
+
+
 def propagate_aliases(repo: Repo) -> int:
-    repo.normalisation["rebinding_folds"] = fold_rebinding(repo)
-    repo.normalisation["nested_defs_to_lambdas"] = nested_returns_to_lambdas(repo)
+    repo.normalisation["rebinding_folds"] = _safe(repo, "N10 rebinding", fold_rebinding)
+    repo.normalisation["nested_defs_to_lambdas"] = _safe(repo, "N11 nested defs", nested_returns_to_lambdas)
+    n = _safe(repo, "N4 aliases", _propagate_all)
+    repo.normalisation["loops_to_comprehensions"] = _safe(repo, "N9 comprehensions", loops_to_comprehensions)
+    # the function index may hold nested functions that were rewritten away or re-created: rebuild it
+    repo.funcs.clear()
+    for ci in repo.classes.values():
+        ci.methods.clear()
+    repo.classes.clear()
+    for mod in repo.modules.values():
+        repo._index(mod)
+    return n
+
+
+def _propagate_all(repo: Repo) -> int:
     summ = _write_summaries(repo)
     res = _write_summaries.res  # type: ignore[attr-defined]
     total = 0
@@ -477,5 +510,4 @@ def propagate_aliases(repo: Repo) -> int:
         # the resolver caches local assignments: start afresh for the next round
         summ = _write_summaries(repo)
         res = _write_summaries.res  # type: ignore[attr-defined]
-    repo.normalisation["loops_to_comprehensions"] = loops_to_comprehensions(repo)
     return total
